@@ -11,6 +11,7 @@ import (
 	"github.com/cosmos/cosmos-sdk/crypto/keys/ed25519"
 	cryptotypes "github.com/cosmos/cosmos-sdk/crypto/types"
 	sdk "github.com/cosmos/cosmos-sdk/types"
+	txtypes "github.com/cosmos/cosmos-sdk/types/tx"
 	"github.com/cosmos/cosmos-sdk/types/tx/signing"
 	authsigning "github.com/cosmos/cosmos-sdk/x/auth/signing"
 	authtx "github.com/cosmos/cosmos-sdk/x/auth/tx"
@@ -59,6 +60,7 @@ const (
 	SigOtherKey         // right pubkey, signature by another key
 	SigNone             // right pubkey, empty signature
 	SigWrongPub         // another key's pubkey and valid signature by that key
+	SigNoSignerInfo     // no signer info at all (so no public key to verify against), one 64-byte dummy signature
 )
 
 // OracleTx builds a fee-less create-price transaction attributed to the consensus key `cons`.
@@ -104,7 +106,26 @@ func OracleTx(chainID string, cons *ed25519.PrivKey, other *ed25519.PrivKey, mod
 	if err := b.SetSignatures(sig); err != nil {
 		return nil, err
 	}
-	return cfg.TxEncoder()(b.GetTx())
+	out, err := cfg.TxEncoder()(b.GetTx())
+	if err != nil || mode != SigNoSignerInfo {
+		return out, err
+	}
+	// strip the signer infos from the encoded transaction and keep one dummy signature: the
+	// transaction still decodes and has as many signatures as signers, but carries no key.
+	var raw txtypes.TxRaw
+	if err := raw.Unmarshal(out); err != nil {
+		return nil, err
+	}
+	var ai txtypes.AuthInfo
+	if err := ai.Unmarshal(raw.AuthInfoBytes); err != nil {
+		return nil, err
+	}
+	ai.SignerInfos = nil
+	if raw.AuthInfoBytes, err = ai.Marshal(); err != nil {
+		return nil, err
+	}
+	raw.Signatures = [][]byte{make([]byte, 64)}
+	return raw.Marshal()
 }
 
 // OracleCreator is the bech32 account-prefixed form of a consensus address, as used by MsgCreatePrice.
